@@ -13,6 +13,15 @@
 (* - the newline is the multiple of 10.  A line of fewer than three bytes  *)
 (* cannot be a frame (`*;` + newline is the shortest).                     *)
 (*                                                                         *)
+(* A byte 10k+9 is a stray byte: not text (not valid UTF-8).               *)
+(* TextBuffer = TRUE : the line buffer is text and is filled by read_line, *)
+(*                     which hands over nothing of a call whose bytes are  *)
+(*                     not valid text: at a newline it fails (the loop     *)
+(*                     then clears the buffer), at a timeout it silently   *)
+(*                     drops what the call had read - named deviation      *)
+(*                     TextBuffer, the code before fix 4fbaf9d (D25);      *)
+(* TextBuffer = FALSE: the buffer holds bytes (read_until); a complete     *)
+(*                     line that is not text is skipped.                   *)
 (* KeepPartial = TRUE : the line buffer survives a timeout and is cleared  *)
 (*                      only after a complete line (the code after the fix)*)
 (* KeepPartial = FALSE: the original loops cleared the buffer on every     *)
@@ -22,7 +31,7 @@
 EXTENDS Integers, Sequences
 
 CONSTANTS Stream,        \* the bytes the server sends
-          KeepPartial, GuardShort,
+          KeepPartial, GuardShort, TextBuffer,
           MaxSegs        \* bound on the number of segments of a schedule
 
 VARIABLES sent, gap, avail, input, processed, crashed, pc, sched
@@ -30,6 +39,8 @@ vars == <<sent, gap, avail, input, processed, crashed, pc, sched>>
 
 IsPrefix(s, t) == Len(s) <= Len(t) /\ SubSeq(t, 1, Len(s)) = s
 IsNL(b) == b % 10 = 0
+IsStray(b) == b % 10 = 9
+HasStray(s) == \E i \in 1..Len(s) : IsStray(s[i])
 NLIdx(s) == IF \E i \in 1..Len(s) : IsNL(s[i]) THEN CHOOSE i \in 1..Len(s) : IsNL(s[i]) /\ \A j \in 1..(i - 1) : ~IsNL(s[j]) ELSE 0
 
 Init == /\ sent = 0 /\ gap = "short" /\ avail = <<>> /\ input = <<>> /\ processed = <<>> /\ crashed = FALSE
@@ -54,11 +65,15 @@ ReadLine ==
   /\ pc = "read" /\ ~crashed
   /\ LET i == NLIdx(avail) IN
      \/ /\ i > 0                                                \* a complete line is there (possibly after short gaps)
-        /\ input' = input \o SubSeq(avail, 1, i) /\ avail' = SubSeq(avail, i + 1, Len(avail))
-        /\ pc' = "process"
+        /\ avail' = SubSeq(avail, i + 1, Len(avail))
+        /\ IF TextBuffer /\ HasStray(SubSeq(avail, 1, i))
+           THEN input' = <<>> /\ pc' = "read"                   \* read_line: InvalidData, the loop clears the buffer
+           ELSE input' = input \o SubSeq(avail, 1, i) /\ pc' = "process"
      \/ /\ i = 0 /\ MayTimeOut /\ Len(avail) > 0                \* timeout: the partial line is appended, the call fails
         /\ avail' = <<>> /\ pc' = "read"
-        /\ input' = IF KeepPartial THEN input \o avail ELSE <<>>     \* ClearOnTimeout (original code)
+        /\ input' = IF ~KeepPartial THEN <<>>                     \* ClearOnTimeout (original code)
+                    ELSE IF TextBuffer /\ HasStray(avail) THEN input   \* read_line drops what this call had read
+                    ELSE input \o avail
   /\ UNCHANGED <<sent, gap, processed, crashed, sched>>
 
 Process ==
@@ -66,6 +81,7 @@ Process ==
   /\ IF Len(input) < 3
      THEN IF GuardShort THEN UNCHANGED <<processed, crashed>>          \* skipped
           ELSE crashed' = TRUE /\ UNCHANGED processed                  \* [1 .. len-2] panics
+     ELSE IF HasStray(input) THEN UNCHANGED <<processed, crashed>>       \* not text: skipped
      ELSE processed' = Append(processed, input) /\ UNCHANGED crashed
   /\ UNCHANGED <<sent, gap, avail, sched>>
 
